@@ -14,10 +14,14 @@ from . import data as D
 from . import harness as H
 
 
-def gen_case(rng, nvars=(1, 4), depth=(1, 4), opts=None, sel_mode=None, allow_expr_sel=True, world_kw=None):
+def gen_case(rng, nvars=(1, 4), depth=(1, 4), opts=None, sel_mode=None, allow_expr_sel=True, world_kw=None,
+             equal_valued=0.0):
     nv = rng.randint(*nvars)
     kinds = [rng.choice("PQ") for _ in range(nv)]
     world = D.random_world(rng, **(world_kw or {}))
+    if equal_valued and rng.random() < equal_valued:
+        D.add_equal_valued_objects(rng, world, n=(2, 4))
+        kinds[rng.randrange(nv)] = "E"
     d = rng.randint(*depth)
     o = {"p_leaf": 0.2}
     if opts:
